@@ -1,7 +1,7 @@
 (* C09 handler_runs_only_if_active, old_incarnation_silent, reset_once_per_shutdown: the
    invariant of Life/Inv.v lifted from callbacks to events and to the whole trace. *)
 From Coq Require Import List NArith Bool Lia PeanoNat.
-From DesVerif Require Import Life.Model Life.Base Life.Step Life.Trace Life.Inert Life.Inv.
+From DesVerif Require Import Life.Model Life.Base Life.Step Life.Trace Life.Frame Life.Inert Life.Inv.
 Import ListNotations.
 Open Scope N_scope.
 
@@ -142,7 +142,7 @@ Definition StepOK (w : world) (e : erec) : Prop :=
      match c with CbTask _ j | CbTimer _ j => j = inc (w_mod w m) | _ => True end) /\
   (forall m, count_resets m (e_items e) =
              (if existsb (fun i => is_req i && of_mod m i) (e_items e) then 1 else 0)%nat) /\
-  (forall ev, e_kind e = KLoop ev -> act_st false (e_items e) <> None).
+  (is_end e = false -> act_st false (e_items e) <> None).
 
 Lemma own_req m1 m l : Own m1 l -> existsb (fun i => is_req i && of_mod m i) l = if m1 =? m then existsb is_req l else false.
 Proof.
@@ -230,12 +230,15 @@ Proof.
       by (intros s Hc _; apply at_sim_start_CInv, Hc).
     destruct (around_step sc w tr HW 0 m1 _ (KStart stage m1) 0 [] (start_cb_ok _ _ _ _ _) Hf (fun _ => eq_refl) (Forall_nil _) eq_refl
                    (or_introl (Forall_nil _))) as [[A B] C].
-    rewrite !app_nil_r in *. split; [split; [exact A|split; [exact B|discriminate]]|exact C].
+    rewrite !app_nil_r in *. split; [split; [exact A|split; [exact B|]]|exact C].
+    intros _. cbn [e_items]. apply (around_scan sc 0 m1 _ w). unfold start_cb.
+    apply (CInv_scan 0 m1 (inc (w_mod w m1))). apply (at_sim_start_CInv true).
+    apply CInv_strengthen; [apply activate_CInv, (proj1 (HW m1))|reflexivity|]. cbn [x_w]. rewrite activate_active. exact Hactive.
   - (* boot *)
     split; [split; [|split]|].
     + intros m c t a [Hin|[]]. discriminate.
     + intros m. reflexivity.
-    + discriminate.
+    + intros _. cbn [boot_rec e_items act_st]. discriminate.
     + intros m. rewrite items_snoc. cbn [boot_rec e_items]. rewrite count_resets_app. cbn. rewrite Nat.add_0_r. apply HW.
   - (* dispatched event *)
     unfold loop_rec. cbn [fst snd].
@@ -245,7 +248,7 @@ Proof.
       cbn [fst snd app]. split; [split; [|split]|].
       * intros m c t' a [Hin|[]]. discriminate.
       * intros m. reflexivity.
-      * intros ev0 _. discriminate.
+      * intros _. cbn [e_items act_st]. discriminate.
       * intros m. rewrite items_snoc. cbn [e_items]. rewrite count_resets_app. cbn. rewrite Nat.add_0_r.
         destruct (HW m) as [HT Hi].
         destruct (walk (nmods sc) (set_fes w f) m1 far); (split; [eapply TI_ext; [|exact HT]; reflexivity|exact Hi]).
@@ -256,7 +259,7 @@ Proof.
       destruct (around_step sc (set_fes w f) tr HW' t m1 (handle_message (nmods sc) (cfg sc m1) t m1 x) (KLoop (EvDeliver m1 x)) t smp (handle_message_ok _ _ _ _ _) (fun s Hc Hl => proj1 (HC s Hc Hl)) (fun _ => eq_refl)
                      Hst eq_refl (or_intror Hso)) as [[A B] C].
       * split; [split; [exact A|split; [exact B|]]|exact C].
-        intros ev0 _. cbn [e_items]. apply act_st_sample. apply (around_scan sc t m1 _ (set_fes w f)).
+        intros _. cbn [e_items]. apply act_st_sample. apply (around_scan sc t m1 _ (set_fes w f)).
         apply HC; [|reflexivity]. apply (activate_CInv t m1 (set_fes w f)). apply (proj1 (HW' m1)).
     + pose proof (async_wakeup_CInv (nmods sc) t m1 (inc (w_mod w m1))) as HC.
       match goal with |- context [ISample t ?k] => set (smp := [ISample t k]) end.
@@ -265,7 +268,7 @@ Proof.
       destruct (around_step sc (set_fes w f) tr HW' t m1 (async_wakeup (nmods sc) t m1) (KLoop (EvWake m1)) t smp (async_wakeup_ok _ _ _) (fun s Hc Hl => proj1 (HC s Hc Hl)) (fun _ => eq_refl)
                      Hst eq_refl (or_intror Hso)) as [[A B] C].
       * split; [split; [exact A|split; [exact B|]]|exact C].
-        intros ev0 _. cbn [e_items]. apply act_st_sample. apply (around_scan sc t m1 _ (set_fes w f)).
+        intros _. cbn [e_items]. apply act_st_sample. apply (around_scan sc t m1 _ (set_fes w f)).
         apply HC; [|reflexivity]. apply (activate_CInv t m1 (set_fes w f)). apply (proj1 (HW' m1)).
     + pose proof (module_restart_CInv (nmods sc) (cfg sc m1) t m1 (inc (w_mod w m1))) as HC.
       match goal with |- context [ISample t ?k] => set (smp := [ISample t k]) end.
@@ -274,7 +277,7 @@ Proof.
       destruct (around_step sc (set_fes w f) tr HW' t m1 (module_restart (nmods sc) (cfg sc m1) t m1) (KLoop (EvRestart m1)) t smp (module_restart_ok _ _ _ _) (fun s Hc Hl => proj1 (HC s Hc Hl)) (fun _ => eq_refl)
                      Hst eq_refl (or_intror Hso)) as [[A B] C].
       * split; [split; [exact A|split; [exact B|]]|exact C].
-        intros ev0 _. cbn [e_items]. apply act_st_sample. apply (around_scan sc t m1 _ (set_fes w f)).
+        intros _. cbn [e_items]. apply act_st_sample. apply (around_scan sc t m1 _ (set_fes w f)).
         apply HC; [|reflexivity]. apply (activate_CInv t m1 (set_fes w f)). apply (proj1 (HW' m1)).
 Qed.
 
@@ -340,7 +343,6 @@ Qed.
    if it holds a shutdown request of m (shutdown(), shutdow_and_restart_in(), quiet), and none
    otherwise; tear-down records hold none. *)
 Definition requests (m : N) (e : erec) : bool := existsb (fun i => is_req i && of_mod m i) (e_items e).
-Definition is_end (e : erec) : bool := match e_kind e with KEnd _ => true | _ => false end.
 
 Theorem reset_once_per_shutdown sc e m : In e (trace sc) ->
   count_resets m (e_items e) = (if requests m e && negb (is_end e) then 1 else 0)%nat.
@@ -357,16 +359,16 @@ Proof.
 Qed.
 
 (* ---- C09 handler_runs_only_if_active ----
-   In every dispatched event, every callback record (message handler, task step, timer
-   completion, start-up stage of a restart) carries is_active = true, the only exception
+   In every record of the start-up sweep and in every dispatched event, every callback record
+   (start-up stage, message handler, task step, timer completion) carries is_active = true, the only exception
    being records that follow a panic of the module's callback within the same event
    (Harness::catch has deactivated the module by then; C13). *)
-Theorem handler_runs_only_if_active sc e ev : In e (trace sc) -> e_kind e = KLoop ev ->
+Theorem handler_runs_only_if_active sc e : In e (trace sc) -> is_end e = false ->
   act_st false (e_items e) <> None.
 Proof.
   intros Hin Hk. apply in_split in Hin. destruct Hin as (pre & post & E).
   destruct (trace_cases sc pre e post E) as [(w1 & w2 & HG & Hs)|(w & tr & now & ms1 & m1 & ms2 & HG & _ & Ems & -> & ->)].
-  - pose proof (gen_WI sc w1 pre HG) as HW. destruct (step_inv sc w1 pre e w2 HW Hs) as [(_ & _ & C) _]. eapply C, Hk.
+  - pose proof (gen_WI sc w1 pre HG) as HW. destruct (step_inv sc w1 pre e w2 HW Hs) as [(_ & _ & C) _]. apply C, Hk.
   - discriminate.
 Qed.
 
